@@ -1,12 +1,12 @@
 # orchestrator configuration of the C07 check (loaded by tools/props.py)
-from stack import FULL_STACK, FULL_DEPS
+from stack import FULL_STACK, FULL_DEPS, QUIC_STACK, QUIC_DEPS, WT_STACK, WT_DEPS
 
 ENABLED = True
 
 SPEC = dict(
     pkg="./harness/c07",
-    instrument=FULL_STACK + ["./p2p/host/blank"],
-    deps=FULL_DEPS,
+    instrument=FULL_STACK + QUIC_STACK + WT_STACK + ["./p2p/host/blank"],
+    deps=FULL_DEPS + QUIC_DEPS + WT_DEPS,
     level="exploration",
     level_text=("seeded search over (listener handler table history x ordered request lists x dialer knowledge x host kinds x "
                 "connection events x schedules) with two real nodes on the simulated network; every lock, channel operation, "
@@ -18,14 +18,16 @@ SPEC = dict(
     level_note=("trusted: testing/synctest, simnet's TCP model, the overlay rewrite, the reference model of the handler table; a "
                 "mutation concurrent with an open may be seen or not (every prefix of the mutation sequence inside the open's "
                 "window is accepted); liveness (open must succeed) only when no mutation overlaps the open and no fault is "
-                "injected; 'first use' = first Write followed by first Read; not covered: limited (relayed) connections, wire "
+                "injected; 'first use' = first Write followed by first Read; not covered: limited (relayed) connections, scripted UDP partitions, wire "
                 "faults on the identify push (staleness comes from racing the push, link latency and Host.Mux() mutations that "
-                "emit no event), transports other than TCP"),
+                "emit no event), transports other than TCP, QUIC and WebTransport"),
     technique=("deterministic simulation with fault injection: full go-libp2p stack (host, identify, swarm, multistream, yamux, "
                "resource manager) under a seeded lock-level scheduler on a simulated network; model-based history oracles"),
     design_ref="DESIGN.md section 6 (C07)",
     quick_s=50, thorough_s=600,
-    rule=("one run = one tape: dialer/listener host kind (basic with identify | blank), security insecure|noise, link chunking and "
+    rule=("one run = one tape: transport stratum first (TCP+yamux 3/5 | QUIC 1/5 | WebTransport over QUIC 1/5; on the QUIC strata "
+          "UDP duplication/reordering for the whole run and 0|3|12 % datagram loss during the first k rounds only, opens under "
+          "loss judged by the safety oracles only, liveness again one loss-free virtual minute later), then dialer/listener host kind (basic with identify | blank), security insecure|noise, link chunking and "
           "latency, optional simultaneous connect (two connections), 1-4 initial handlers out of 8 specs (exact /a/1 /a/1.1 /a /b/1 "
           "/c; match functions: prefix under the name /a, major-version under /a/1, alias under /b that does not match its own "
           "name), then 1-3 rounds of: 0-2 handler mutations (set/replace/remove, through the host or silently through Host.Mux()), "
@@ -44,14 +46,18 @@ SPEC = dict(
             "first-read-races-first-write-lazy", "first-read-races-first-write-eager",
             "read-only-client-lazy", "read-only-client-eager", "null-resource-manager",
             "second-round-trip-after-idle-lazy", "second-round-trip-after-idle-eager",
+            "transport-tcp", "transport-quic", "transport-webtransport", "lazy-ok-quic", "eager-ok-quic", "lazy-ok-webtransport",
+            "eager-ok-webtransport", "verified-under-udp-loss", "second-round-trip-after-idle-quic",
+            "second-round-trip-after-40s-idle-quic",
             "blank-dialer", "blank-listener"],
     real=["ALL of the following run as tasks of the seeded scheduler (instrumented: every lock, channel operation, select, go statement is a scheduling point)",
           "basic host (NewStream eager + lazy/optimistic path, newStreamHandler, SetStreamHandler/Match, RemoveStreamHandler), blank host",
           "identify + identify push (knowledge of the remote's protocols)", "go-multistream (muxer, SelectOneOf, lazy client)",
           "swarm (conns, streams, Stream.SetProtocol/Protocol)", "tcp transport dial path, upgrader, insecure|noise, yamux",
+          "QUIC strata: quic-go v0.59, p2p/transport/quic, quicreuse, p2p/transport/webtransport, webtransport-go, quic-go/http3",
           "resource manager (real, infinite limits; protocol scopes read through Stat()) behind a refusing wrapper",
           "pstoremem (protocol book), eventbus"],
-    stubs=["wire: simnet TCP model", "refusing resource-manager wrapper (delegates to the real one; one refusal of SetProtocol in the fault stratum)"],
+    stubs=["wire: simnet TCP model", "wire: simnet UDP model (drawn loss, duplication, per-copy latency)", "crypto/rand pinned by simrand on the QUIC strata", "refusing resource-manager wrapper (delegates to the real one; one refusal of SetProtocol in the fault stratum)"],
     assume=["virtual clock of testing/synctest", "2 virtual seconds suffice for an identify push / a stream teardown on links with <= 20 ms latency",
             "the Router documentation (first registered eligible handler wins, exact literal match) is the specification of handler choice"],
 )
